@@ -97,7 +97,7 @@ claim("C10",
       "every request, incl. ones crossing extent boundaries and the tail over-read, equals the concatenation.",
       TRUST, "z3 regex language inclusion on the real pattern + symbolic execution of the assembly code", "4.10")
 
-claim(,
+claim("C20",
       "The real VisorTarInfo.frombuf/_proc_member and the stdlib's TarFile.next/_proc_member/_block run on archives of up to 3 "
       "members whose sizes, visor flag bytes and visor offset fields are symbolic; on every path z3 shows each member's header "
       "position, data offset and size equal the vmtar layout (visor members with a data offset do not skip inline data, all "
